@@ -65,9 +65,12 @@ def run_property(prop, tier, repo="/repo", quiet=False):
     cross = []
     if tier == "thorough" and ctx.release is not None:
         for rid in spec["rules"]:
-            if rid not in engine.RULES or rid in spec.get("arith_rules", ()):
+            if rid not in engine.RULES or rid in spec.get("arith_rules", ()) or rid in DEBUG_ONLY_RULES:
                 continue
             res2 = engine.run_rule(rid, ctx.release)
+            flt = spec.get("filters", {}).get(rid)
+            if flt:
+                res2 = [r for r in res2 if _re.search(flt, r.key) or r.kind in ("anchor lost", "machinery error")]
             a = sorted((r.key, r.ok) for r in insts if r.rule == rid)
             b = sorted((r.key, r.ok) for r in res2)
             same = a == b
@@ -155,6 +158,10 @@ def explain(path):
         print("reported instance %s on the current tree" % ("still fails" if hit else "no longer fails"))
         return 1 if hit else 0
     return 0
+
+
+# rules whose instances are the overflow-check sites themselves: they exist only in the overflow-checked build
+DEBUG_ONLY_RULES = {"VARINT-GUARD"}
 
 
 def main(argv):
